@@ -5,6 +5,7 @@ import (
 	"crypto/sha256"
 	"fmt"
 
+	"github.com/free5gc/ike/message"
 	"github.com/free5gc/ike/security"
 
 	"verifharness/abs"
@@ -59,6 +60,10 @@ type c02env struct {
 	m    *abs.Msg // its content
 	kr   *security.IKESAKey
 	tr   *mon.Trace
+	// header objects the receiver holds from the first (genuine) presentation: one parsed from a private copy of the
+	// genuine datagram, one filled in by hand.  Tampered datagrams whose 28 header octets are untouched are presented
+	// with these objects (a receiver that parses the header once per exchange / per retransmission).
+	held [2]*message.IKEHeader
 }
 
 func (e *c02env) witness(pp []byte, kind string) M {
@@ -90,13 +95,36 @@ func (e *c02env) judge(pp []byte, kind, pos string) {
 		}
 		return
 	}
-	d, err, p := libUnprotect(pp, e.pre, e.kr, !e.init)
+	var d *abs.Msg
+	var err error
+	var p *core.Panic
+	genuine := bytes.Equal(pp, e.p)
+	if e.pre && e.held[0] != nil && !genuine && len(pp) >= 28 && bytes.Equal(pp[:28], e.p[:28]) && hashBytes(pp)%2 == 0 {
+		d, err, p = libUnprotectWith(pp, e.held[hashBytes(pp)>>4%2], e.kr, !e.init)
+		k.Count("tampered_presented_with_a_held_header_object", 1)
+		kind += "(held header)"
+	} else {
+		d, err, p = libUnprotect(pp, e.pre, e.kr, !e.init)
+	}
 	ev := e.tr.Snapshot()
 	if p != nil {
 		k.Violate("panic", "tampered: "+p.Sig(), "DecodeDecrypt panicked on a "+kind+" message", panicData(p, e.witness(pp, kind)))
 		return
 	}
-	genuine := bytes.Equal(pp, e.p)
+	if genuine && e.pre && e.held[0] == nil && err == nil {
+		// the receiver keeps header objects from this first acceptance and has used them once on the genuine datagram
+		if h, herr := message.ParseHeader(append([]byte{}, e.p...)); herr == nil {
+			e.held[0] = h
+			e.held[1] = &message.IKEHeader{InitiatorSPI: h.InitiatorSPI, ResponderSPI: h.ResponderSPI, NextPayload: h.NextPayload, MajorVersion: h.MajorVersion,
+				MinorVersion: h.MinorVersion, ExchangeType: h.ExchangeType, Flags: h.Flags, MessageID: h.MessageID}
+			for _, hh := range e.held {
+				if _, gerr, gp := libUnprotectWith(e.p, hh, e.kr, !e.init); gerr != nil || gp != nil {
+					k.Violate("genuine-rejected", "genuine-rejected-with-held-header", fmt.Sprint(gerr, gp), e.witness(e.p, "genuine"))
+					return
+				}
+			}
+		}
+	}
 	if genuine {
 		e.judgeGenuine(d, err, ev)
 		return
@@ -436,7 +464,7 @@ func c02(c *core.Ctx) {
 	c.Info("assumptions", "acceptance with HMAC-collision probability (<= 2^-96) is treated as never || spies wrap the exported interface-typed fields Encr_i/Encr_r/Integ_i/Integ_r")
 	c.Family("cells-exhaustive", c.N(36*6, 36*2000), func(k *core.Case) { c02Cell(k, k.Index%36, true) })
 	c.Family("cells-sampled", c.N(36*12, 36*6000), func(k *core.Case) { c02Cell(k, k.Index%36, false) })
-	req := []string{"transport_framings_tried", "rejected_insertion", "genuine_accepted", "exhaustive_bitflip_messages", "rejected_cross-key", "rejected_reflection", "handled_as_unprotected", "rejected_short-sk-body"}
+	req := []string{"tampered_presented_with_a_held_header_object", "transport_framings_tried", "rejected_insertion", "genuine_accepted", "exhaustive_bitflip_messages", "rejected_cross-key", "rejected_reflection", "handled_as_unprotected", "rejected_short-sk-body"}
 	for _, pc := range allPosClasses {
 		req = append(req, "pos_"+pc)
 	}
